@@ -42,6 +42,9 @@ type DenseFloat32Matrix struct {
 /* constructors
  * -------------------------------------------------------------------------- */
 func NewDenseFloat32Matrix(values []float32, rows, cols int) *DenseFloat32Matrix {
+  if rows < 0 || cols < 0 || len(values) != rows*cols {
+    panic("NewMatrix(): Matrix dimension does not fit input values!")
+  }
   m := DenseFloat32Matrix{}
   m.values = values
   m.rows = rows
